@@ -1,7 +1,7 @@
 ------------------------------- MODULE MCCasts -------------------------------
 EXTENDS Casts, Json
 LawsOnce == (c.from = "f64" /\ c.to = "f64" /\ c.v = 0) =>
-                NullPreserved /\ OptionComposes /\ PredicatesCoherent /\ ComparatorAxioms
+                NullPreserved /\ OptionComposes /\ PredicatesCoherent /\ ComparatorAxioms /\ TDAxioms
 
 TagStr(t) == t
 Applies == IF c.from \in Types THEN HasVal(c.from, c.v) ELSE TRUE
@@ -18,4 +18,8 @@ EmitCmp ==
     (c.from = "f64" /\ c.to = "f64" /\ c.v = 0) =>
         \A a \in Universe, b \in Universe :
             PrintT(<<"REPLAY", ToJson([op |-> "cmp", a |-> a, b |-> b, cmp |-> Cmp(a, b), rev |-> CmpRev(a, b)])>>)
+EmitTDCmp ==
+    (c.from = "f64" /\ c.to = "f64" /\ c.v = 0) =>
+        \A a \in TDUniverse, b \in TDUniverse :
+            PrintT(<<"REPLAY", ToJson([op |-> "tdcmp", a |-> a, b |-> b, cmp |-> TDCmp(a, b), rev |-> TDCmpRev(a, b)])>>)
 =============================================================================
